@@ -94,7 +94,8 @@ theorem consumeLrw_other (c : Cfg) (pushed : Option Nat) (s : St) (pdus : List R
     let r := consumeLrw c pushed s pdus
     r.1.frames = s.frames ∧ r.1.subs = s.subs ∧ r.1.checks = s.checks ∧ r.1.idx = s.idx ∧
     r.1.resps = s.resps ∧ r.1.states = s.states ∧ r.1.time = s.time ∧ r.1.timeRead = s.timeRead ∧
-    r.1.image.length = s.image.length ∧ r.1.image.drop c.readLen = s.image.drop c.readLen := by
+    r.1.image.length = s.image.length ∧
+    (∀ m, (∀ k, pushed = some k → min (s.sent + k) c.readLen ≤ m) → r.1.image.drop m = s.image.drop m) := by
   intro r
   cases pushed with
   | none => simp [r, consumeLrw]
@@ -110,12 +111,14 @@ theorem consumeLrw_other (c : Cfg) (pushed : Option Nat) (s : St) (pdus : List R
           simp [List.length_take]; omega
         have hfit : min s.sent c.readLen + (p.data.take (min (s.sent + k) c.readLen - min s.sent c.readLen)).length
             ≤ s.image.length := by rw [hlen]; omega
-        have hfit2 : min s.sent c.readLen + (p.data.take (min (s.sent + k) c.readLen - min s.sent c.readLen)).length
-            ≤ c.readLen := by rw [hlen]; omega
         have e1 := setRange_length' s.image _ _ hfit
-        have e2 := setRange_drop s.image _ _ c.readLen hfit2 hfit
+        have e2 : ∀ m, min (s.sent + k) c.readLen ≤ m →
+            (setRange s.image (min s.sent c.readLen)
+              (p.data.take (min (s.sent + k) c.readLen - min s.sent c.readLen))).drop m = s.image.drop m := by
+          intro m hm
+          exact setRange_drop s.image _ _ m (by rw [hlen]; omega) hfit
         cases ha : addU 16 c.mode s.wkc p.wkc <;>
-          simp [r, consumeLrw, hl, ha, e1, e2]
+          simp [r, consumeLrw, hl, ha, e1] <;> exact e2
 
 /-! ### `consumeDc` -/
 
@@ -144,8 +147,8 @@ theorem consumeDc_cases (dcP : Bool) (s : St) (r : List RPdu) :
 def finishStep (c : Cfg) (chunkLen : Nat) (s : St) : Step :=
   if c.dc.isSome && exitCond c chunkLen s.checks then .done s else .continue s
 
-/-- Whatever the answer, `consume` leaves the history, the iterator, the image length and the output part of
-    the image alone. -/
+/-- Whatever the answer, `consume` leaves the history, the iterator, the image length and the image beyond the
+    input bytes of this chunk alone. -/
 theorem consume_other (c : Cfg) (dcP : Bool) (pushed : Option Nat) (chunkLen : Nat) (s : St) (r : List RPdu)
     (hk : ∀ k, pushed = some k → s.sent + k ≤ s.image.length) :
     (consume c dcP pushed chunkLen s r).st.frames = s.frames ∧
@@ -154,21 +157,27 @@ theorem consume_other (c : Cfg) (dcP : Bool) (pushed : Option Nat) (chunkLen : N
     (consume c dcP pushed chunkLen s r).st.idx = s.idx ∧
     (consume c dcP pushed chunkLen s r).st.resps = s.resps ∧
     (consume c dcP pushed chunkLen s r).st.image.length = s.image.length ∧
-    (consume c dcP pushed chunkLen s r).st.image.drop c.readLen = s.image.drop c.readLen := by
+    (∀ m, (∀ k, pushed = some k → min (s.sent + k) c.readLen ≤ m) →
+      (consume c dcP pushed chunkLen s r).st.image.drop m = s.image.drop m) := by
   rcases consumeDc_cases dcP s r with ⟨e, he⟩ | ⟨s3, pdus, he, hs3, _, _⟩
   · simp [consume, he, Step.st]
   · have hL := consumeLrw_other c pushed s3 pdus (by rw [hs3]; exact hk)
     have e3 : s3.frames = s.frames ∧ s3.subs = s.subs ∧ s3.checks = s.checks ∧ s3.idx = s.idx ∧
-        s3.resps = s.resps ∧ s3.image = s.image := by rw [hs3]; simp
+        s3.resps = s.resps ∧ s3.image = s.image ∧ s3.sent = s.sent := by rw [hs3]; simp
     simp only [consume, he]
     generalize consumeLrw c pushed s3 pdus = rl at hL ⊢
     obtain ⟨s4, o4⟩ := rl
     simp only at hL
+    have e4 : s4.frames = s.frames ∧ s4.subs = s.subs ∧ s4.checks = s.checks ∧ s4.idx = s.idx ∧
+        s4.resps = s.resps ∧ s4.image.length = s.image.length ∧
+        (∀ m, (∀ k, pushed = some k → min (s.sent + k) c.readLen ≤ m) → s4.image.drop m = s.image.drop m) := by
+      refine ⟨by rw [hL.1, e3.1], by rw [hL.2.1, e3.2.1], by rw [hL.2.2.1, e3.2.2.1], by rw [hL.2.2.2.1, e3.2.2.2.1],
+        by rw [hL.2.2.2.2.1, e3.2.2.2.2.1], by rw [hL.2.2.2.2.2.2.2.2.1, e3.2.2.2.2.2.1], ?_⟩
+      intro m hm
+      rw [hL.2.2.2.2.2.2.2.2.2 m (by rw [e3.2.2.2.2.2.2]; exact hm), e3.2.2.2.2.2.1]
     cases o4 with
-    | err e => simp only [Step.st]; rw [hL.1, hL.2.1, hL.2.2.1, hL.2.2.2.1, hL.2.2.2.2.1, hL.2.2.2.2.2.2.2.2.1,
-        hL.2.2.2.2.2.2.2.2.2, e3.1, e3.2.1, e3.2.2.1, e3.2.2.2.1, e3.2.2.2.2.1, e3.2.2.2.2.2]; simp
-    | panic w => simp only [Step.st]; rw [hL.1, hL.2.1, hL.2.2.1, hL.2.2.2.1, hL.2.2.2.2.1, hL.2.2.2.2.2.2.2.2.1,
-        hL.2.2.2.2.2.2.2.2.2, e3.1, e3.2.1, e3.2.2.1, e3.2.2.2.1, e3.2.2.2.2.1, e3.2.2.2.2.2]; simp
+    | err e => exact e4
+    | panic w => exact e4
     | ok pdus' =>
       dsimp only
       have hS := consumeStates_other c pdus' s4
@@ -177,10 +186,8 @@ theorem consume_other (c : Cfg) (dcP : Bool) (pushed : Option Nat) (chunkLen : N
       simp only at hS
       have e5 : s5.frames = s.frames ∧ s5.subs = s.subs ∧ s5.checks = s.checks ∧ s5.idx = s.idx ∧
           s5.resps = s.resps ∧ s5.image.length = s.image.length ∧
-          s5.image.drop c.readLen = s.image.drop c.readLen := by
-        rw [hS.1]; simp only
-        rw [hL.1, hL.2.1, hL.2.2.1, hL.2.2.2.1, hL.2.2.2.2.1, hL.2.2.2.2.2.2.2.2.1,
-          hL.2.2.2.2.2.2.2.2.2, e3.1, e3.2.1, e3.2.2.1, e3.2.2.2.1, e3.2.2.2.2.1, e3.2.2.2.2.2]; simp
+          (∀ m, (∀ k, pushed = some k → min (s.sent + k) c.readLen ≤ m) → s5.image.drop m = s.image.drop m) := by
+        rw [hS.1]; exact e4
       cases o5 with
       | err e => exact e5
       | panic w => exact e5
@@ -262,6 +269,73 @@ theorem consume_cont {c : Cfg} {dcP : Bool} {pushed : Option Nat} {chunkLen : Na
             simp [exitCond] at hc
             intro ⟨h1, h2, h3⟩
             exact absurd h3 (by have := hc h1 h2; omega)
+
+theorem consumeDc_err {dcP : Bool} {s : St} {r : List RPdu} {e : TxErr} (h : consumeDc dcP s r = .err e) :
+    e = .internal ∨ e = .wireShort := by
+  unfold consumeDc at h
+  cases dcP with
+  | false => simp at h
+  | true =>
+    cases r with
+    | nil => simp at h; exact Or.inl h.symm
+    | cons p rest =>
+      simp only [if_true] at h
+      split at h
+      · simp at h; exact Or.inr h.symm
+      · simp at h
+
+theorem consumeLrw_err {c : Cfg} {pushed : Option Nat} {s : St} {pdus : List RPdu} {e : TxErr}
+    (h : (consumeLrw c pushed s pdus).2 = .err e) : e = .internal := by
+  unfold consumeLrw at h
+  cases pushed with
+  | none => simp at h
+  | some k =>
+    cases pdus with
+    | nil => simp at h; exact h.symm
+    | cons p rest =>
+      simp only at h
+      split at h
+      · simp at h; exact h.symm
+      · split at h <;> simp at h
+
+theorem consumeStates_err (c : Cfg) : ∀ (pdus : List RPdu) (s : St) (e : TxErr),
+    (consumeStates c s pdus).2 = .err e → e = .wireShort
+  | [], s, e, h => by simp [consumeStates] at h
+  | p :: rest, s, e, h => by
+    unfold consumeStates at h
+    split at h
+    · simp at h; exact h.symm
+    · exact consumeStates_err c rest _ e h
+
+theorem consume_fail_kinds {c : Cfg} {dcP : Bool} {pushed : Option Nat} {chunkLen : Nat} {s s' : St}
+    {r : List RPdu} {e : TxErr} (h : consume c dcP pushed chunkLen s r = .fail s' e) :
+    e = .internal ∨ e = .wireShort := by
+  unfold consume at h
+  cases hd : consumeDc dcP s r with
+  | err e1 =>
+    rw [hd] at h; simp at h; rw [← h.2]; exact consumeDc_err hd
+  | panic w => rw [hd] at h; simp at h
+  | ok x =>
+    obtain ⟨s3, pdus⟩ := x
+    rw [hd] at h; dsimp only at h
+    have hL := @consumeLrw_err c pushed s3 pdus
+    generalize consumeLrw c pushed s3 pdus = rl at hL h
+    obtain ⟨s4, o4⟩ := rl
+    cases o4 with
+    | err e1 => simp at h; rw [← h.2]; exact Or.inl (hL rfl)
+    | panic w => simp at h
+    | ok pdus' =>
+      dsimp only at h
+      have hS := consumeStates_err c pdus' s4
+      generalize consumeStates c s4 pdus' = rs at hS h
+      obtain ⟨s5, o5⟩ := rs
+      cases o5 with
+      | err e1 => simp at h; rw [← h.2]; exact Or.inr (hS e1 rfl)
+      | panic w => simp at h
+      | ok u =>
+        cases u
+        dsimp only at h
+        split at h <;> simp at h
 
 /-- `consume` on an answer of the requested shape: clock value, LRW answer, state-check answers. -/
 theorem consume_shaped (c : Cfg) (dcP : Bool) (pushed : Option Nat) (chunkLen : Nat) (s : St)
